@@ -209,6 +209,10 @@ func runC08(c *eng.Ctx) {
 	ruleUnitDiscipline(c)
 	c.Floor(8)
 
+	c.Rule("R01.8", "K5")
+	ruleLogShapes(c)
+	c.Floor(20)
+
 	// ---- R08.6 readers re-initialise
 	c.Rule("R08.6", "K4")
 	rep := p.Field(clPkg, "segment", "replaced")
